@@ -5,8 +5,8 @@ undo renames of locals (sa/localnames.py)."""
 import ast, json, os, sys
 sys.path.insert(0, "/verif")
 from sa import localnames
-localnames._TABLE = {}          # generate from unrenamed sources
 from sa.core import run_property, SRC, REPO
+# the file list comes from a normal run; the table itself is built from the raw (un-normalised) sources below
 
 files = set()
 for i in range(1, 21):
